@@ -874,10 +874,31 @@ def explain(prop, case, obs, flags):
     return base(prop, case, obs, flags)
 
 
+def static_tie(prop, repo):
+    """C06: the Newick control characters of the Coq model are re-derived from the current source and compared by coqc."""
+    if prop != "C06":
+        return None
+    import os
+    from .. import gen_newick
+    verif = os.path.dirname(os.path.dirname(os.path.dirname(os.path.abspath(__file__))))
+    devs = gen_newick.run(repo, verif)
+    return {"deviations": devs,
+            "what": ("the eight control characters of the Newick reader and writer (class NewickCharacter of "
+                     "bigtree/utils/constants.py: member names, values, declaration order = order of values()) are "
+                     "regenerated from the source under check; a generated Coq file checks by computation that the "
+                     "model's writer escape set equals values() and that the model's writer and parser give every "
+                     "generated character the role its name says; a deviation means the Newick theorems are no "
+                     "longer about this source's format"),
+            "theorems": ["C06_newick_roundtrip", "C06_newick_nodes_once", "C06_newick_roundtrip_float"],
+            "obligations_checked": "see harness/gen_newick.py emit()"}
+
+
 def trusted_base(prop):
     return COMMON_TB + [
         "str_to_tree is modelled only for tree_prefix_list=[] (the branch using re.split is not modelled)",
         "print()/io.StringIO, str.encode('ascii','ignore'), str.lstrip/index/find/startswith are modelled, not verified",
+        "harness/gen_newick.py: ast-based translator of class NewickCharacter (bigtree/utils/constants.py) into "
+        "GenNewick.v, checked against the model's writer and parser by coqc",
     ]
 
 
